@@ -87,6 +87,7 @@ def _run_indices(engine_name, prop, tier, seed, indices, want_digest):
         "digests": {},
         "violations": [],
         "sample": None,
+        "samples_more": [],
         "sim_seconds": 0.0,
         "errors": [],
         "nontrivial": 0,
@@ -113,8 +114,13 @@ def _run_indices(engine_name, prop, tier, seed, indices, want_digest):
         out["nontrivial"] += 1 if res.get("nontrivial", True) else 0
         if idx in want_digest:
             out["digests"][idx] = res["digest"]
-        if out["sample"] is None and res.get("sample") is not None:
-            out["sample"] = res["sample"]
+        if res.get("sample") is not None:
+            smp = res["sample"]
+            if out["sample"] is None:
+                out["sample"] = smp
+            if res.get("violations") or (isinstance(smp, dict) and smp.get("interesting")):
+                if len(out["samples_more"]) < 2:
+                    out["samples_more"].append(smp)
         for v in res.get("violations", ()):
             cls = eng.violation_class(v)
             per_class[cls] += 1
@@ -195,7 +201,7 @@ def run_check(prop, tier, seed, workers, budget_scale=1.0, runs_override=None):
 
     agg = {
         "n": 0, "counters": collections.Counter(), "faults": collections.Counter(),
-        "states": set(), "digests": {}, "violations": [], "sample": None,
+        "states": set(), "digests": {}, "violations": [], "sample": None, "samples_more": [],
         "sim_seconds": 0.0, "errors": [], "nontrivial": 0,
     }
     stopped_early = False
@@ -233,6 +239,9 @@ def run_check(prop, tier, seed, workers, budget_scale=1.0, runs_override=None):
                 agg["errors"].extend(r["errors"])
                 if agg["sample"] is None:
                     agg["sample"] = r["sample"]
+                for sm in r.get("samples_more", []):
+                    if len(agg["samples_more"]) < 3:
+                        agg["samples_more"].append(sm)
                 if clock.real_monotonic() - t0 > wall_cap:
                     stopped_early = True
                     for g in inflight:
@@ -383,7 +392,7 @@ def run_check(prop, tier, seed, workers, budget_scale=1.0, runs_override=None):
             "evaluations": agg["n"],
             "distinct_nontrivial": len(agg["states"]),
             "rule": eng.RULE[prop],
-            "samples": [agg["sample"]] if agg["sample"] is not None else [],
+            "samples": ([agg["sample"]] if agg["sample"] is not None else []) + [x for x in agg["samples_more"] if x is not agg["sample"]][:3],
             "exhaustive": False,
             "runs_planned": runs,
             "stopped_early_on_wall_cap": stopped_early,
